@@ -148,16 +148,34 @@ def run(ck):
     where = cast.where(u.fn('rfc1055_decode'))
     ctx = ('v', 'ctx')
     table = {}
+    # the machine's state inside the call: the loop-carried location the iterations dispatch on (compared with the state
+    # enumerators) - ctx->state itself, or a local copy of it that is written back where the call returns.  What the
+    # NEXT call starts from is what ctx->state holds at the return.
+    CTXSTATE = ('f', ctx, 'state')
+    skey = None
+    for p in dps:
+        if not p.loops:
+            continue
+        for k_, (h_, pre_) in p.loops[-1][1].items():
+            if any(c[0] == 'cmp' and c[1] in ('==', '!=') and strip_cast(c[2]) == h_ and sym.is_c(c[3]) and c[3][1] in (S_START, S_END, S_NORMAL) for c in p.cond_terms()):
+                if skey is None or k_ == CTXSTATE:
+                    skey = k_
+    if skey is None:
+        ck.broken('C12.e', 'rfc1055_decode:shape', where, 'no loop-carried location is compared with the decoder states (the state machine is not a dispatch on a state variable)')
+        return
     for p in dps:
         if not p.loops:
             ck.broken('C12.e', 'rfc1055_decode:shape', where, 'path outside the decode loop')
             continue
         lmap = p.loops[-1][1]
-        hs = lmap.get(('f', ctx, 'state'))
+        hs = lmap.get(skey)
         if hs is None:
-            ck.broken('C12.e', 'rfc1055_decode:shape', where, 'ctx->state is not loop-carried')
+            ck.broken('C12.e', 'rfc1055_decode:shape', where, 'the decoder state %s is not loop-carried' % fmt(skey))
             return
         hstate = hs[0]
+        if skey != CTXSTATE and strip_cast(hs[1]) != CTXSTATE:
+            ck.violation('C12.e', 'rfc1055_decode:start-state', where, 'the state machine starts from %s, not from the state the context holds' % fmt(hs[1]))
+            return
         eqs = [c[3][1] for c in p.cond_terms() if c[0] == 'cmp' and c[1] == '==' and c[2] == hstate and sym.is_c(c[3])]
         nes = [c[3][1] for c in p.cond_terms() if c[0] == 'cmp' and c[1] == '!=' and c[2] == hstate and sym.is_c(c[3])]
         if eqs:
@@ -174,9 +192,17 @@ def run(ck):
         ev, atoms = events(p)
         puts = [e for e in p.calls('sink_put_octet')]
         sinkerr = any(is_neg(p, e.result) for e in puts)
-        # next state
-        nxt = p.mem.get(('f', ctx, 'state'), hstate)
-        nxt = 'same' if nxt == hstate else SN.get(nxt[1], '?') if nxt[0] == 'c' else '?'
+        # next state: what the next iteration dispatches on (back edge) resp. what the context holds for the next call (return)
+        if p.end == 'loopback' or skey == CTXSTATE:
+            nxt = sym.mem_read(p.mem, skey, hstate)
+            nxt = strip_cast(nxt)
+        else:
+            nxt = strip_cast(sym.mem_read(p.mem, CTXSTATE))
+            if nxt == CTXSTATE:
+                # the call returns without having stored the machine's state: the context still holds what it held when the
+                # call began - the same as the machine's state only if no transition happened before in this call
+                nxt = ('stale',)
+        nxt = 'same' if nxt == hstate else SN.get(nxt[1], '?') if nxt[0] == 'c' else ('entry-state' if nxt == ('stale',) else '?')
         if p.end == 'loopback':
             res = 'continue'
         elif p.ret is not None and p.ret[0] == 'c':
@@ -225,13 +251,22 @@ def run(ck):
                 continue
             matched.add(row)
             want = oracle[row]
+            if val[0] == 'entry-state':
+                ck.violation('C12.e', k, where,
+                             'state %s, input %s, %s mode: the call returns (result %s) without writing the decoder state back to the context - the context keeps the '
+                             'state it had when the call BEGAN, and a transition made earlier in the same call (a resynchronising END already consumed) is lost: '
+                             'the next call skips or drops the following well-formed frame' % (state, '+'.join(ev), m, val[1]))
+                continue
             if val[0] == '?':
                 unread = True
                 ck.broken('C12.e', k, where, 'the next state on this path is not a constant the rule can read (%s): computed through a table or a helper result'
                           % fmt(sym.mem_read(dps[0].mem, ('f', ctx, 'state'))) if False else
                           'the next state on this path is not a constant the rule can read (computed through a lookup table or a call result)')
                 continue
-            ok = want == val
+            # 'same' and the name of the state the iteration started in are the same answer
+            def _res(x):
+                return state if (x == 'same' and state != '?') else x
+            ok = (_res(want[0]),) + tuple(want[1:]) == (_res(val[0]),) + tuple(val[1:])
             ck.verdict(ok, 'C12.e', k, where,
                        'next=%s result=%s emit=%s' % val if ok else
                        'state %s, input %s, %s mode: code gives next=%s result=%s emit=%s; the property demands next=%s result=%s emit=%s'
@@ -295,7 +330,9 @@ def run(ck):
                'no encoding of a payload octet contains the delimiter' if noend else 'an escape sequence contains END: %s' % enc_map)
     # decoder inverse of encoder
     for src_, seq in want_enc.items():
-        row = table.get(('NORMAL', seq, 'both'))
+        rows = [table[k_] for k_ in ((('NORMAL', seq, 'both'),) if ('NORMAL', seq, 'both') in table else
+                                     (('NORMAL', seq, 'classic'), ('NORMAL', seq, 'sof'))) if k_ in table]
+        row = rows[0] if rows and all(r_ == rows[0] for r_ in rows) and (len(rows) == 2 or ('NORMAL', seq, 'both') in table) else None
         ok = row is not None and row[2] == (src_,)
         ck.verdict(ok, 'C12.a', 'decode-inverse:' + src_, where,
                    'decoder maps %s back to %s' % ('+'.join(seq), src_) if ok else 'decoder maps %s to %s' % ('+'.join(seq), row))
